@@ -307,3 +307,64 @@ func GenOwn(seed int64, idx int, tier string) *Plan {
 	p.Clients = [][]Req{cl}
 	return p
 }
+
+// GenHealth: a service with 2-4 targets whose probes flap (all failing, staggered recovery) after deployment;
+// one client sends requests one after the other at any point between probes. Serves C09.
+func GenHealth(seed int64, idx int, tier string) *Plan {
+	rng := rand.New(rand.NewSource(seed*3000017 + int64(idx)))
+	p := &Plan{Family: "health", Seed: seed*3000017 + int64(idx), Targets: map[string]TargetScript{}, QuantumMs: 100, SettleMs: 4000}
+	p.Urgent = true
+	pickSched(rng, p)
+	n := 2 + rng.Intn(3)
+	var group []string
+	for i := 0; i < n; i++ {
+		name := fmt.Sprintf("t%d", i+1)
+		group = append(group, name)
+		s := TargetScript{Then: ProbeOutcome{Class: "ok"}}
+		s.Probes = append(s.Probes, ProbeOutcome{Class: "ok"})
+		for k := 0; k < 10; k++ {
+			if rng.Intn(3) == 0 {
+				s.Probes = append(s.Probes, failingProbe(rng))
+			} else {
+				s.Probes = append(s.Probes, ProbeOutcome{Class: "ok", DelayMs: rng.Intn(3) * 9})
+			}
+		}
+		if rng.Intn(6) == 0 { // a target that goes down for good
+			s.Then = failingProbe(rng)
+		}
+		p.Targets[name] = s
+	}
+	if rng.Intn(4) == 0 { // all targets fail together for a while
+		k0 := 2 + rng.Intn(4)
+		for _, name := range group {
+			s := p.Targets[name]
+			for k := k0; k < k0+2 && k < len(s.Probes); k++ {
+				s.Probes[k] = ProbeOutcome{Class: "bad", Status: 503}
+			}
+			p.Targets[name] = s
+		}
+	}
+	p.Lanes = [][]Cmd{{{ID: "c1", Kind: "deploy", Svc: "A", Hosts: []string{"a.test"}, Targets: group, DeployTimeoutMs: 2500, DrainTimeoutMs: 500}}}
+	var cl []Req
+	m := 20 + rng.Intn(30)
+	for i := 0; i < m; i++ {
+		r := Req{ID: fmt.Sprintf("r%d", i+1), Svc: "A", Host: "a.test", Path: "/x", Kind: "plain", Sync: true}
+		if i == 0 {
+			r.After = "c1"
+		}
+		if rng.Intn(3) > 0 {
+			r.WaitMs = offGrid(rng, 10, 700)
+		}
+		cl = append(cl, r)
+	}
+	p.Clients = [][]Req{cl}
+	// a second, unsynchronised client makes some claims concurrent
+	if rng.Intn(3) == 0 {
+		var c2 []Req
+		for i := 0; i < 5; i++ {
+			c2 = append(c2, Req{ID: fmt.Sprintf("q%d", i+1), Svc: "A", Host: "a.test", Path: "/x", Kind: "plain", After: "c1", WaitMs: offGrid(rng, 10, 2500)})
+		}
+		p.Clients = append(p.Clients, c2)
+	}
+	return p
+}
